@@ -1,8 +1,8 @@
 #!/usr/bin/env python3
-"""save_seed.py <Cxx> <A|B> — copy a confirmed seeded change from /tmp/seed/out-Cxx into /verif/seeded/Cxx-<v>/"""
+"""save_seed.py <Cxx> <A|B|..> [srcdir] — copy a confirmed seeded change from /tmp/seed/out-Cxx into /verif/seeded/Cxx-<v>/"""
 import json, os, shutil, sys
 pid, v = sys.argv[1], sys.argv[2]
-src = "/tmp/seed/out-%s" % pid
+src = sys.argv[3] if len(sys.argv) > 3 else "/tmp/seed/out-%s" % pid
 dst = "/verif/seeded/%s-%s" % (pid, v)
 os.makedirs(dst, exist_ok=True)
 shutil.copy(os.path.join(src, v + ".patch.diff"), os.path.join(dst, "patch.diff"))
